@@ -4,6 +4,7 @@ Hypothesis part and for --replay.
 
 A *case* is a JSON-able dict:
   {"kind":"norm","cps":[...],"mode":"NFD"|"NFC","dmax":int|None,"bos":bool}
+  {"kind":"string","cps":[...],"bos":bool}          (both modes, whole dmax sweep)
   {"kind":"fold","cp":int}
   {"kind":"oor","entry":str,"variant":str,"value":int}
 Every check returns a list of violations  (vkind, detail)  -- empty == passes.
@@ -434,12 +435,13 @@ def token(cp):
     if cp > 0x10FFFF or 0xD800 <= cp <= 0xDFFF:
         return "X"
     c = chr(cp)
+    x = "x" if cp > 0xFFFF else ""  # supplementary plane
     if ud.combining(c):
-        return "M"
+        return "M" + x
     d = ud.decomposition(c)
     if d and not d.startswith("<"):
-        return "D"
-    return "S"
+        return "D" + x
+    return "S" + x
 
 
 def pattern(cps):
@@ -458,6 +460,13 @@ def evaluate(case):
     k = case["kind"]
     if k == "norm":
         return check_norm(list(case["cps"]), case["mode"], case.get("dmax"), bool(case.get("bos")))
+    if k == "string":  # both modes, ample + the whole dmax sweep
+        v = []
+        for mode in ("NFD", "NFC"):
+            r = eval_string(list(case["cps"]), mode, bool(case.get("bos")), True)
+            if r:
+                v.append((r[0], r[1]))
+        return v
     if k == "fold":
         return check_fold(case["cp"])
     if k == "oor":
